@@ -52,6 +52,7 @@ impl Prop for C07T {
         if sweep {
             sc.set("all_compositions", 1);
         }
+        sc.set("take_first", rng.chance(1, 2) as i64);
         // schedule 0 is the reference: largest possible reads, no suspension
         sc.scheds.push(Sched::default());
         let k = rng.range(4, if thorough { 16 } else { 8 });
